@@ -427,7 +427,7 @@ pub fn scenarios(thorough: bool) -> Vec<RrScenario> {
 
 pub fn run(ctx: &mut Ctx) {
     let thorough = ctx.tier == crate::report::Tier::Thorough;
-    let e2 = E2 { bound: if thorough { 3 } else { 2 }, max_executions: 3_000_000, ..Default::default() };
+    let e2 = E2 { bound: if thorough { 3 } else { 2 }, max_executions: 3_000_000, demotions: usize::from(thorough), bound_with_demotion: 2, ..Default::default() };
     let scns = scenarios(thorough);
     ctx.cov("programs", scns.len() as u64);
     for s in &scns {
